@@ -26,12 +26,17 @@ ASSUMPTIONS = ["d >= 2 for svd (q >= 1 for svd_matrix)", "e > 0, r >= 1", "LAPAC
 
 @st.composite
 def dense_specs(draw, tier, d_min=2, d_max=5, n_max=6, size_max=3000):
-    kind = draw(st.sampled_from(["exact", "exact", "noisy", "full"]))
+    kind = draw(st.sampled_from(["exact", "exact", "noisy", "full", "inttable"]))
     if tier == "thorough":
         size_max = 20000
     n = draw(gen.shapes(d_min=d_min, d_max=d_max, n_max=n_max, size_max=size_max))
     spec = {"kind": kind, "n": n, "seed": draw(gen.seeds), "scale10": draw(st.sampled_from([0, 0, 1, -1, 3, -3, 6, -6]))}
-    if kind != "full":
+    if kind == "inttable":
+        # a table of integers (counts, small-integer TT-tensor), possibly handed over as an integer array
+        spec["scale10"] = 0
+        spec["store"] = draw(st.sampled_from(["int64", "int32", "float64"]))
+        spec["tt"] = draw(st.one_of(st.none(), gen.tt_specs(shape=n, r_max=3, families=("smallint",), rank_families=("rank1", "uniform", "ragged"))))
+    elif kind != "full":
         spec["tt"] = draw(gen.tt_specs(shape=n, r_max=4, families=("gauss", "float"), rank_families=("rank1", "uniform", "ragged")))
         spec["noise10"] = draw(st.sampled_from([-3, -6, -9]))
     return spec
@@ -42,6 +47,8 @@ def build_dense(spec):
     n = spec["n"]
     if spec["kind"] == "full":
         A = rng.normal(size=n)
+    elif spec["kind"] == "inttable" and spec.get("tt") is None:
+        A = rng.integers(-9, 10, size=n).astype(float)
     else:
         A = dense(gen.build_tt(spec["tt"]))
         if spec["kind"] == "noisy":
@@ -55,6 +62,14 @@ def svd_cases(draw, tier):
             "log10e": draw(st.floats(-12, 0.5, allow_nan=False)), "ksel": draw(st.integers(0, 7)), "qsel": draw(st.integers(0, 15)),
             "side": draw(st.sampled_from([-1, 1])), "cap": draw(st.sampled_from(["none", "none", "int", "float", "one"])),
             "capv": draw(st.integers(1, 8))}
+
+
+def as_table(A, store, ctx):
+    """What the library is given: an integer-valued array kept in an integer array when the case asks for it (same values)."""
+    if store and store != "float64" and A.size and np.array_equal(A, np.round(A)) and np.abs(A).max() < 2 ** 31:
+        ctx.label("stored_as:" + store)
+        return A.astype(store)
+    return A
 
 
 def cap_value(case):
@@ -135,7 +150,7 @@ def prop_svd(case, ctx):
             cap = 1e12
         else:
             ctx.label("no_gap")
-    Y = ctx.lib(teneva.svd, A, e, cap)
+    Y = ctx.lib(teneva.svd, as_table(A, case["A"].get("store"), ctx), e, cap)
     rk, err, cut, binds = check_ttsvd(ctx, A, Y, e, cap, T, "svd")
     if recover:
         ctx.label("recover")
@@ -152,7 +167,8 @@ def matrix_cases(draw, tier):
     q = draw(st.integers(1, 4 if tier == "quick" else 5))
     return {"q": q, "seed": draw(gen.seeds), "kind": draw(st.sampled_from(["gauss", "lowrank", "kron", "smallint"])),
             "scale10": draw(st.sampled_from([0, 0, 3, -3, 6, -6])), "log10e": draw(st.floats(-12, 0.3, allow_nan=False)),
-            "cap": draw(st.sampled_from(["none", "none", "int", "one"])), "capv": draw(st.integers(1, 8))}
+            "cap": draw(st.sampled_from(["none", "none", "int", "one"])), "capv": draw(st.integers(1, 8)),
+            "store": draw(st.sampled_from(["float64", "int64", "int32"]))}
 
 
 def interleave(M, q):
@@ -185,10 +201,10 @@ def prop_matrix(case, ctx):
     e = max(nrm, 1e-300) * 10.0 ** case["log10e"]
     cap = cap_value(case)
     ctx.label("kind:" + kind, f"q={q}", "cap:" + case["cap"])
-    Y = ctx.lib(teneva.svd_matrix, M, e, cap)
+    Y = ctx.lib(teneva.svd_matrix, as_table(M, case.get("store"), ctx), e, cap)
     Z = interleave(M, q)
     if q == 1:
-        why = oracle.wellformed(Y, [4])
+        why = oracle.wellformed(Y, [4], int_ok=True)       # (the only core is the reshaped matrix itself: an integer table stays one)
         ctx.check(why is None, f"svd_matrix: {why}")
         back = ctx.lib(teneva.full_matrix, Y)
         ctx.check(np.array_equal(back, M), "full_matrix(svd_matrix(M)) != M for q = 1")
@@ -225,7 +241,8 @@ def fact_cases(draw, tier):
             "qsel": draw(st.integers(0, 30)), "side": draw(st.sampled_from([-1, 1])),
             "cap": draw(st.sampled_from(["none", "none", "int", "float", "one"])), "capv": draw(st.integers(1, 8)),
             "rel": draw(st.booleans()), "give_to": draw(st.sampled_from(["m", "l", "r"])),
-            "sym": draw(st.booleans()), "routine": draw(st.sampled_from(["skeleton", "skeleton", "svd"]))}
+            "sym": draw(st.booleans()), "routine": draw(st.sampled_from(["skeleton", "skeleton", "svd"])),
+            "store": draw(st.sampled_from(["float64", "int64", "int32"]))}
 
 
 def build_matrix(case):
@@ -287,9 +304,9 @@ def prop_fact(case, ctx):
     ctx.label("routine:" + routine, f"rel={rel}", "give_to:" + case["give_to"], "sfam:" + case["sfam"], "sym" if case["sym"] else "nonsym")
     herm = bool(case["sym"]) and routine == "skeleton"
     if routine == "skeleton":
-        U, V = ctx.lib(teneva.matrix_skeleton, A, e, cap, hermitian=herm, rel=rel, give_to=case["give_to"])
+        U, V = ctx.lib(teneva.matrix_skeleton, as_table(A, case.get("store"), ctx), e, cap, hermitian=herm, rel=rel, give_to=case["give_to"])
     else:
-        U, V = ctx.lib(teneva.matrix_svd, A, e, cap)
+        U, V = ctx.lib(teneva.matrix_svd, as_table(A, case.get("store"), ctx), e, cap)
     ctx.check(U.ndim == 2 and V.ndim == 2 and U.shape[0] == m and V.shape[1] == n and U.shape[1] == V.shape[0],
               "factor shapes are inconsistent", U=U.shape, V=V.shape)
     ctx.check(np.all(np.isfinite(U)) and np.all(np.isfinite(V)), "non-finite factor")
